@@ -249,14 +249,21 @@ def r13(repo, res):
         seen.append((major_sol.label, sorted((a[1], a[2]) for a in alleles), set(mutations)))
         return []
 
+    OTHER = Mut(800, "A>T")   # a variant nobody considers, outside every annotated region
+    eager = []
+
     def filt(fn_):
+        # the real `filtered` applies the filter at once: what it keeps is decided by the state at THIS moment
+        if callable(fn_):
+            passing = Obj(basic_filter=lambda m_, cn=None, thres=None: True)
+            eager.append({m_ for m_ in (F1, S1, S2, NC, X0, OTHER) if fn_(passing, m_)})
         return Obj(filtered=filt, _coverage={})
 
     try:
         Lifted(em, funcs={"SolvedAllele": lambda *a: a, "functools.partial": lambda f_, *a: (lambda *b: f_(*a, *b)), "natsorted": lambda it, key=None: sorted(it, key=key),
                           "_print_candidates": lambda *a: None, "solve_minor_model": solve, "Mutation": Mut},
                env={"Coverage": Obj(quality_filter="QUALITY")})(gene, ClassModel(repo.cls("coverage::Coverage"), env={"Coverage": Obj(quality_filter="QUALITY")}).instance(
-                   filtered=filt, profile=Obj(cn_max=20)), majors, "any")
+                   filtered=filt, profile=Obj(cn_max=20, threshold=0.5, min_coverage=2.0, min_quality=10, min_mapq=10), _coverage={}, _indels=None), majors, "any")
     except (Unfoldable, Raised) as e:
         res.err("C04.R13", f"estimate_minor outside the folding language: {e}")
         return
@@ -267,6 +274,12 @@ def r13(repo, res):
                     "the candidates' novel variants and the common variants (nothing of uncalled alleles)",
            found="ok" if ok else str([(l, sorted(set(al)), sorted(map(str, m_))) for l, al, m_ in seen]),
            clause="every considered variant that has supporting reads is carried by at least one allele (the considered set)", key="pooling")
+    oke = bool(eager) and all(k_ == {F1, S1, S2, NC, X0} for k_ in eager)
+    res.ob("C04.R13", em, em, oke,
+           expected="when the evidence is filtered (at once, per structure), every considered variant that passes the thresholds is kept -- core, minor-only, "
+                    "novel and common variants alike, wherever they lie -- and an unconsidered variant outside the annotated regions is not",
+           found="ok" if oke else str([sorted(map(str, k_)) for k_ in eager]),
+           clause="every considered variant that has supporting reads is carried by at least one allele", key="considered-at-filter-time")
 
 
 def run(repo, res):
@@ -275,6 +288,9 @@ def run(repo, res):
 
 
 MUTANTS = [
+    dict(name="R13 common variants join the considered set after the evidence was filtered (seeded X6_3 shape)", module="minor", expect="C04.R13",
+         edits=[("    mutations |= gene.random_mutations\n", ""),
+                ("    if novel:\n        for cov in covs.values():", "    mutations |= gene.random_mutations\n    if novel:\n        for cov in covs.values():")]),
     # equivalent: a continuous result in [0, inf) between `<= each binary factor` and `>= sum - (n - 1)` still equals the product
     dict(name="benign: product result declared as a continuous variable", module="minor", kind="benign",
          old='                    vtype="B",\n                    name=f"MUL_K_', new='                    name=f"MUL_K_'),
